@@ -263,6 +263,35 @@ fn get_does_not_block() -> Option<String> {
     res
 }
 
+/// a value type WITHOUT drop glue and a tracked seed: whatever happened before, dropping the cell
+/// must leave the seed dropped exactly once
+fn scenario_plain_value(outs: &[Out]) -> Option<String> {
+    let c = Arc::new(Counters::default());
+    let cell: OnceInitCell<Seed, u64> = OnceInitCell::new(Seed { c: c.clone(), panic_on_drop: false });
+    for (i, o) in outs.iter().enumerate() {
+        let _ = std::panic::catch_unwind(std::panic::AssertUnwindSafe(|| {
+            cell.get_or_try_init(|_| match o {
+                Out::Ok => Ok(i as u64),
+                Out::Fail => Err(()),
+                Out::Panic => panic!("initialiser panics"),
+            })
+            .map(|v| *v)
+        }));
+    }
+    let inited = cell.get().is_some();
+    let before = c.seed_drops.load(Ordering::SeqCst);
+    drop(cell);
+    let after = c.seed_drops.load(Ordering::SeqCst);
+    if before != inited as u64 || after != 1 {
+        Some(format!(
+            "value type without destructor, outcomes {:?}: seed dropped {before} times before and {after} times after dropping the cell (initialised = {inited})",
+            outs
+        ))
+    } else {
+        None
+    }
+}
+
 /// while the initialising thread is still dropping the seed, `get` either says None or already
 /// shows the final value -- never anything else
 fn get_during_seed_destructor() -> Option<String> {
@@ -308,9 +337,10 @@ pub fn run(a: &Args) {
     let mut evals = 0u64;
     let reps = if a.thorough() { 20 } else { 2 };
     for s in &all {
-        evals += 2;
+        evals += 3;
         bad.extend(scenario(s, false, false));
         bad.extend(scenario_no_drop(s, false));
+        bad.extend(scenario_plain_value(s));
         if s.len() >= 2 {
             for _ in 0..reps {
                 evals += 2;
